@@ -114,4 +114,15 @@ PLAN = {
         "covers_by_harness": {"VfC03_(Create|BareObject|Other_.*|AutoReply)": ["payload"]},
         "tiers": {"quick": {"params": {"nobj": 1, "patterns": 4, "hdepth": 2}, "timeout_s": 1200}, "thorough": {"params": {"nobj": 2, "patterns": 7, "hdepth": 3}, "timeout_s": 10000}},
     },
+    "C16": {
+        "level_text": "Client POSTs through the whole outbox stack with the default Social callbacks: Update of a stored Note whose four sample members (three known properties and one unknown member) are each stored-or-absent and supplied-absent/new/null in every combination - the JSON snapshot at Database.Update equals the reference merge member by member; Delete of a stored Note/Article/Image/Person with or without published/updated - Tombstone with same id, former type, original times, the clock's instant as deleted, nothing else kept; Add/Remove with 1..2 objects and 1..2 targets, symbolic ownership, ordered/unordered targets with 0..2 previous entries that may alias the object ids - exact list effect on owned targets only; Like - object ids at the front of liked; Block - stored, listed in the outbox, no Transport call at all; each type with object/target absent or an empty array - 400 and no write.",
+        "level_note": "Trusted: symgo, stdlib models (time.Format as an uninterpreted function of instant, zone and layout), cvc5; stored values are values as ToType produced them from a document with @context",
+        "pkg": "./pub",
+        "explanation": EXPL + "C16: reference effects computed in the harness and compared with JSON snapshots of the values reaching the Database.",
+        "bounds": "member values are fixed distinct literals (the member SET is what varies: 6^4 combinations, all explored); 1..2 objects/targets; previous collection entries 0..2",
+        "outside": "nested (non top-level) members; more than 2 objects/targets",
+        "assumptions": COMMON_ASSUME,
+        "covers_by_harness": {"VfC16_Update": ["applied"]},
+        "tiers": {"quick": {"params": {"nobj": 2}, "timeout_s": 1200}, "thorough": {"params": {"nobj": 3}, "timeout_s": 6000}},
+    },
 }
